@@ -286,10 +286,18 @@ pub fn fixed_cases(tree: &Tree) -> Vec<Case> {
     });
     // 2. the offset x length grid on w.data (20483 bytes) and on the 8192-byte file.
     for (name, size) in [("w.data", 20483u64), ("w.onnx_data_1", 8192u64)] {
-        for off in offset_candidates(size) {
+        for (oi, off) in offset_candidates(size).into_iter().enumerate() {
+            // the second file gets a thinner grid
+            if name != "w.data" && !matches!(oi, 0 | 1 | 5 | 7 | 8 | 9 | 12 | 17 | 19) {
+                continue;
+            }
             let off_v = parse_u64(&off).unwrap_or(0);
             for len in length_candidates(size, off_v) {
                 let len_v = parse_u64(&len);
+                // huge lengths are paired with a few offsets only (each one costs a process if the loader aborts)
+                if len_v.map(|l| l >= 1 << 40).unwrap_or(false) && off_v != 0 && off_v < size && off_v != 4096 {
+                    continue;
+                }
                 let dims = match len_v {
                     Some(l) if l <= i64::MAX as u64 => vec![l as i64],
                     _ => vec![1],
